@@ -258,7 +258,7 @@ class Execer:
             if logical_input:
                 beg_spaces = starting_whitespace(input)
                 input = input[len(beg_spaces) :]
-            max_retries = len(input.splitlines()) * 2 + 10
+            max_retries = len(input) + 10
             while not parsed:
                 if max_retries <= 0:
                     # Prevent hanging e.g. #5839
